@@ -14,7 +14,33 @@ out += ["", "### 10.1 Seeded changes (written by independent sub-agents from the
         "that fails with the change and passes without it; confirmed in a scratch worktree (notes/seeded_eval.py). "
         "`caught` = the quick check printed VIOLATION; `input` = with a concrete failing input (not only "
         "no-failing-input-found).", "",
-        "| Seeded change | Summary | Needs | Check: caught / with failing input |", "|---|---|---|---|"]
+        ]
+# per-round statistics: outcome when a round was first evaluated (seeded/INITIAL.json) and now
+init = {}
+ip = os.path.join(HERE, "seeded", "INITIAL.json")
+if os.path.exists(ip):
+    init = json.load(open(ip))
+rounds = {}
+for m in sorted(glob.glob(os.path.join(HERE, "seeded", "*", "meta.json"))):
+    d = json.load(open(m))
+    name = os.path.basename(os.path.dirname(m))
+    w = int(re.search(r"-w(\d)-", name).group(1)) if re.search(r"-w(\d)-", name) else 1
+    own = d.get("checks", {}).get(name[:3], {})
+    r = rounds.setdefault(w, {"n": 0, "first": 0, "now": 0, "now_input": 0, "missed_now": []})
+    r["n"] += 1
+    r["first"] += bool(init.get(name, {}).get("caught_by_own_check_at_first_evaluation"))
+    r["now"] += bool(own.get("violations")); r["now_input"] += bool(own.get("with_failing_input"))
+    if not own.get("violations"):
+        r["missed_now"].append(name)
+out += ["Rounds (each round = 4 changes per property by fresh agents that saw only the property text; later rounds were "
+        "told which KINDS of change earlier rounds had produced). `first` = caught by the property's own quick check when the "
+        "round was first evaluated (before the checks were strengthened on its misses), `now` = caught by the committed checks.", "",
+        "| Round | changes | caught at first evaluation | caught now | with a concrete failing input now | still missed |",
+        "|---|---|---|---|---|---|"]
+for w in sorted(rounds):
+    r = rounds[w]
+    out.append("| %d | %d | %d | %d | %d | %s |" % (w, r["n"], r["first"], r["now"], r["now_input"], ", ".join(r["missed_now"]) or "-"))
+out += ["", "| Seeded change | Summary | Needs | Check: caught / with failing input |", "|---|---|---|---|"]
 for m in sorted(glob.glob(os.path.join(HERE, "seeded", "*", "meta.json"))):
     d = json.load(open(m))
     name = os.path.basename(os.path.dirname(m))
